@@ -677,6 +677,14 @@ def gen_values(rng, sol, precs=('d', 'ld'), nassign=2, npts=3, evaluators=None, 
             for fn, sig in caps:
                 if rng.random() < 0.5:
                     pts.append((fn, sig, value_point(rng, sol, sig, vals), rng.randint(1, e['dim']) if 'I' in sig else None))
+        if sol == 'fans_sa_steady_wall_bounded':      # the limiter branch of the closure is active in a narrow band of wall distances (for
+            # small mu): a ladder of 12 rungs over y = 10^-2.5 .. 10^-0.3 for the one evaluator that depends on it
+            for fn, sig in caps:
+                if fn == 'source_nu' and sig == 'SS':
+                    x0 = exact_double(rng, 0.2, 2.0)
+                    for j in range(12):
+                        yv = round(10.0 ** (-2.5 + 2.2 * (j + rng.random()) / 12) * 2 ** 30) / 2.0 ** 30
+                        pts.append((fn, sig, [hexf(x0), hexf(yv)], None))
         if sol == 'sod_1d' and vals.get('Gamma', 2.0) < 1.12:      # transonic rarefaction: its tail lies at 0 < x/t < u* - c* (<= 0.057)
             for fn, sig in caps:
                 for _ in range(4):
@@ -711,6 +719,13 @@ def gen_values(rng, sol, precs=('d', 'ld'), nassign=2, npts=3, evaluators=None, 
         first = [k for k in e['pars'] if not _re.match(r'^[a-g]_', k)]; rest = [k for k in e['pars'] if k not in first]
         rng.shuffle(first); rng.shuffle(rest)
         ks = (first if len(first) <= 12 else []) + rest + (first if len(first) > 12 else [])
+        byarity0 = {}
+        for fn, sig, pt, di in last_pts:
+            byarity0.setdefault(sig, (pt, di))
+        for p in precs:          # priming: the point of this phase is the LAST point evaluated before the first change, too
+            for fn, sig in caps:
+                if sig in byarity0:
+                    S.append(eval_line(p, 'cxx', fn, sig, byarity0[sig][0], byarity0[sig][1], cbk))
         for k in ks[:oat]:
             nv = pick(rng, sol, k)
             if mix and k in TRANSPORT:
